@@ -961,18 +961,27 @@ func (p *Parser) parseRegexpLiteral() ast.Expression {
 	if strings.HasPrefix(val, "(?") {
 		val = strings.TrimPrefix(val, "(?")
 
+		closed := false
 		i := 0
 		for i < len(val) {
 
 			if val[i] == ')' {
 
 				val = val[i+1:]
+				closed = true
 				break
 			} else {
 				flags += string(val[i])
 			}
 
 			i++
+		}
+
+		// No closing ")"?  Then these were not flags at all,
+		// the pattern is to be used as it was written.
+		if !closed {
+			flags = ""
+			val = p.curToken.Literal
 		}
 	}
 	return &ast.RegexpLiteral{Token: p.curToken, Value: val, Flags: flags}
